@@ -830,6 +830,8 @@ class JupiterMoons(object):
         # Check type
         if not isinstance(i_sat, int):
             raise TypeError("Invalid input types")
+        if i_sat < 0 or i_sat > 4:
+            raise ValueError("Invalid satellite number")
 
         # Handle tuple or seperate values for input coordinates
         if type(X_coordinate) in (list, tuple):  # input type: tuple or list
@@ -909,6 +911,11 @@ class JupiterMoons(object):
         # Check input type
         if not isinstance(epoch, Epoch):
             raise TypeError("Invalid input type")
+        if check_all is not True:
+            if not isinstance(i_sat, int):
+                raise TypeError("Invalid input type")
+            if i_sat < 0 or i_sat > 4:
+                raise ValueError("Invalid satellite number")
 
         # Calculate light-time delay
         # DELTA, tau = JupiterMoons.calculate_delta(epoch)
